@@ -117,6 +117,7 @@ structure AuthIn where
   t : Nat
   nx : Bool                           -- RCODE is NXDOMAIN (else NOERROR with an empty answer)
   reqCD : Bool                        -- the request had CD=1
+  haveDS : Bool                       -- the resolver holds a (supported) DS for the signer zone: the zone is secure
   signed : Bool                       -- some RRSIG of a record in the section names `signer` (findRRSIGSigners)
   sigsGood : Bool                     -- every in-zone RRset of the section carries an RRSIG that verifies
   nsec : List Nsec                    -- the NSEC records of the authority section, as sent
@@ -149,7 +150,8 @@ def authAgg (H : SdnsVerif.Model.Nsec3.HashFn) (i : AuthIn) : Except Err Rcode :
   | .ok (rc, _) => .ok rc
   | .error e => .error e
 
-/-- `Resolver.authority` on such a response. CD=1 skips validation (the response
+/-- `Resolver.authority` on such a response. Without a DS for the zone the zone
+is insecure (nothing to validate against). CD=1 skips validation (the response
 travels on without AD and without provenance); so does the response to an RRSIG
 question (verifyDNSSEC returns "not verified, no error" for it); a signer that is not an
 ancestor-or-self of the question (`ValidateSigner`), missing or failing RRSIGs
@@ -157,11 +159,21 @@ are errors; otherwise the exact validator decides and the RFC 8198 evaluator
 only adds the `Aggressive` flag. -/
 def authorityStep (H : SdnsVerif.Model.Nsec3.HashFn) (i : AuthIn) : AuthOut :=
   if i.reqCD then authPassed else
-  if !i.signed then authServfail else                      -- secure zone, no signer: ErrNoSignatures
+  if !i.signed then (if i.haveDS then authServfail else authPassed) else   -- no signer: ErrNoSignatures in a secure zone
   if !nameInZone i.q i.signer then authServfail else       -- ValidateSigner
-  if i.t == 46 then authPassed else                        -- verifyDNSSEC: "we don't need to verify rrsig questions"
+  if !i.haveDS then authPassed else                        -- no DS for the signer: insecure zone, passed on without AD
+  if i.t = 46 then authPassed else                         -- verifyDNSSEC: "we don't need to verify rrsig questions"
   if !i.sigsGood then authServfail else
   authority (authFamily i) (authExact H i) (authAgg H i) i.nx false
+
+/-- what reaches `cache.ResponseWriter.WriteMsg` when the resolver hands the
+response `authority` returned to the writer: provenance and `Aggressive` are
+authority()'s, the remaining guard bits are the request's / the cache's. -/
+def pipelineWrite (H : SdnsVerif.Model.Nsec3.HashFn) (i : AuthIn) (respCD ecs hasScope copied optout : Bool) : WriteIn :=
+  let o := authorityStep H i
+  let k := match authFamily i with | .nsec => 1 | .nsec3 => 2
+  { reqCD := i.reqCD, respCD := respCD, ecs := ecs, hasScope := hasScope, marked := o.marked, copied := copied,
+    kind := k, agg := o.aggressive, fam := k, nx := i.nx, optout := optout }
 
 /-! ### synthesis side -/
 
